@@ -40,6 +40,7 @@ type c13XR struct {
 	NoComp   bool     `json:"nocomp"`   // no spec.compositionRef
 	NotReady bool     `json:"notready"` // Ready=False
 	Unsynced bool     `json:"unsynced"` // Synced=False
+	Rev      int      `json:"rev"`      // spec.compositionRevisionRef.name: 0 = none yet, k = "rev-k"; XRs of one list often share one
 	Refs     []c13Ref `json:"refs"`
 }
 
@@ -260,6 +261,10 @@ func c13GenXRs(r *Rng, kinds int) []c13XR {
 	xrs := []c13XR{}
 	for i, n := 0, r.Intn(5); i < n; i++ {
 		x := c13XR{Del: r.Chance(1, 3), Paused: r.Chance(1, 5), NoComp: r.Chance(1, 5), NotReady: r.Chance(1, 4), Unsynced: r.Chance(1, 5), Refs: []c13Ref{}}
+		// most XRs of a controller sit on the same one or two composition revisions; some have
+		// not selected one yet. Two XRs on one revision may well compose different kinds (a
+		// pipeline renders per XR; a new XR has no references yet).
+		x.Rev = Pick(r, []int{0, 1, 1, 1, 2})
 		for j, m := 0, r.Intn(4); j < m; j++ {
 			ref := c13Ref{G: c13GenKind(r, kinds)}
 			if r.Chance(1, 10) {
@@ -271,6 +276,27 @@ func c13GenXRs(r *Rng, kinds int) []c13XR {
 			}
 		}
 		xrs = append(xrs, x)
+	}
+	if r.Chance(1, 3) {
+		// two XRs on the SAME revision with different reference sets, in either list order; the
+		// one listed first often has no references yet (just created)
+		a := c13XR{Rev: 1, Refs: []c13Ref{}}
+		b := c13XR{Rev: 1, Refs: []c13Ref{{G: c13GenKind(r, kinds)}}}
+		if r.Chance(1, 2) {
+			a.Refs = append(a.Refs, c13Ref{G: c13GenKind(r, kinds)})
+		}
+		if r.Chance(1, 2) {
+			b.Refs = append(b.Refs, c13Ref{G: c13GenKind(r, kinds)})
+		}
+		pair := []c13XR{a, b}
+		if r.Chance(1, 2) {
+			pair = []c13XR{b, a}
+		}
+		if r.Chance(1, 2) {
+			xrs = append(pair, xrs...)
+		} else {
+			xrs = append(xrs, pair...)
+		}
 	}
 	return xrs
 }
@@ -417,6 +443,7 @@ func c13Alphabet() []c13Op {
 		{Op: "gc", N: 0, Xrs: []c13XR{}},
 		{Op: "gc", N: 0, Xrs: []c13XR{{Refs: []c13Ref{{G: 0}}}}},
 		{Op: "gc", N: 0, Xrs: []c13XR{{Del: true, NotReady: true, Refs: []c13Ref{{G: 0}}}, {Refs: []c13Ref{{G: 1000}}}}},
+		{Op: "gc", N: 0, Xrs: []c13XR{{Rev: 1, Refs: []c13Ref{}}, {Rev: 1, Refs: []c13Ref{{G: 0}}}, {Refs: []c13Ref{{G: 1}}}}},
 		{Op: "removeInformer", G: 0},
 		{Op: "startWatches", N: 1, Ws: []c13WidJ{w("composed", 0)}},
 		{Op: "stop", N: 1},
